@@ -257,7 +257,7 @@ def token_cases(tier):
     out = []
     for c in cases:
         out.append(dict(c, route='rule'))
-        if tier == 'thorough' or (c['fam'] != 'b' and not smoke) or c['fam'] in ('a2', 'e'):
+        if tier == 'thorough' or c['fam'] in ('a2', 'c', 'e'):
             out.append(dict(c, route='prog'))
     if tier == 'thorough':
         for fam, toks in PT.family_parenthesisations(5, ['*', '+', '<', 'or']):
@@ -275,9 +275,9 @@ def tree_cases(tier, seed):
     if tier == 'smoke':
         n_rand, d3 = 300, PT.enumerate_trees(3, [a], ['+'], ['-'], [], index_with=PT.Id('i'))
     elif tier == 'quick':
-        n_rand, d3 = 3000, PT.enumerate_trees(3, [a], ['*', '+'], ['-'], [], index_with=PT.Id('i'), length=False)
+        n_rand, d3 = 2000, PT.enumerate_trees(3, [a], ['*', '+'], ['-'], [], index_with=PT.Id('i'), length=False)
     else:
-        n_rand, d3 = 30000, PT.enumerate_trees(3, [a], ['*', '+', 'and'], ['-'], ['int'], index_with=PT.Id('i'))
+        n_rand, d3 = 20000, PT.enumerate_trees(3, [a], ['*', '+'], ['-', 'not'], ['int'], index_with=PT.Id('i'))
     res += [('d3', t) for t in d3 if PT.tree_depth(t) == 3]
     rnd = random.Random(seed)
     for n in range(n_rand):
